@@ -202,6 +202,31 @@ class Parser:
         if tok == ";":
             self.eat(";")
             return ("block", [])
+        if tok == "typedef":
+            # `typedef A::B::T T;` - a short name for a type; types are skipped anyway
+            while self.eat() != ";":
+                pass
+            return ("block", [])
+        if tok == "ASSERT" and self.peek(1) == "(":
+            # a debug check (Debug.hpp): no effect; the translation assumes nothing from it
+            self.eat(); 
+            depth = 0
+            while True:
+                t = self.eat()
+                if t == "(":
+                    depth += 1
+                elif t == ")":
+                    depth -= 1
+                    if depth == 0:
+                        break
+            self.eat(";")
+            return ("block", [])
+        if (IDENT.match(tok) and not self.known(tok) and tok in ("Slot", "Signal") and IDENT.match(self.peek(1) or "")
+                and self.peek(2) == ";"):
+            # `Slot newSlot;` - a local node object whose fields are assigned one by one and which is appended afterwards
+            ty = self.eat(); name = self.eat(); self.eat(";")
+            self.names[-1].add(name)
+            return ("declvar", ty, name)
         if self.is_decl():
             d = self.decl()
             self.eat(";")
@@ -431,7 +456,7 @@ class V:
         self.__dict__.update(kw)
 
     def key(self):
-        return (self.kind,) + tuple(sorted((k, v) for k, v in self.__dict__.items() if k not in ("kind", "present")))
+        return (self.kind,) + tuple(sorted((k, v) for k, v in self.__dict__.items() if k not in ("kind", "present", "varname")))
 
     def __repr__(self):
         return "V" + repr(self.key())
@@ -492,6 +517,9 @@ class Tr:
             lines = []
             self.effect(s[1], env, lines)
             return "".join(f"{ind}{l}\n" for l in lines) + self.tr(rest, cont, env, ind)
+        if k == "declvar":
+            env[s[2]] = V("lnode", ty=s[1], fields={})
+            return self.tr(rest, cont, env, ind)
         if k == "decl":
             lines = []
             for name, e, ty in s[1]:
@@ -504,6 +532,8 @@ class Tr:
                 v = self.ev(e, env, lines)
                 if v.kind in ("sigit", "lit") and "Iterator" not in ty:
                     self.refuse(f"`{name}`: an iterator stored in a non-iterator")
+                if v.kind in ("sigit", "lit"):
+                    v.varname = name
                 if v.kind == "val" and "&" not in ty and "*" not in ty and v.ty in ("bool", "state"):
                     # a local object (not a reference): its value is taken now
                     lines.append(f"let v_{name} := {v.term}")
@@ -783,7 +813,14 @@ class Tr:
         b = body
         while b[0] == "block" and len(b[1]) == 1:
             b = b[1][0]
-        if b[0] != "switch" or b[1] != ("member", "->", ("id", name), "state"):
+        if b[0] != "switch":
+            # `if`s over the node instead of a switch: the same per-node execution as for the while form
+            self.mutate("slist")
+            x = self.fresh("x")
+            stmts = body[1] if body[0] == "block" else [body]
+            f = self.node_exec(stmts, None, name, X, env, x)
+            return f"{ind}H.slotsFilterMap h {X.e} {X.g} (fun {x} => {f})"
+        if b[1] != ("member", "->", ("id", name), "state"):
             self.refuse("cursor loop whose body is not `switch(i->state)`")
         self.mutate("slist")
         segs = b[2]
@@ -887,11 +924,33 @@ class Tr:
 
     def store(self, lhs, rhs, env, lines):
         """lhs = rhs; returns the value stored"""
+        if lhs[0] == "id" and lhs[1] in env and env[lhs[1]].kind in ("sigit", "lit"):
+            # `it = m.insert(k, T())` after `it = m.find(k)` found nothing: the iterator of the same key, now present.
+            # (its presence flag is not tracked any further: a later comparison of this variable with end() is refused)
+            old = env[lhs[1]]
+            new = self.ev(rhs, env, lines)
+            if new.kind != old.kind or new.key() != old.key() or new.present != "true":
+                self.refuse(f"`{lhs[1]}` re-assigned to something else than the inserted entry of the same key")
+            self.reassigned = getattr(self, "reassigned", set()) | {lhs[1]}
+            new.varname = lhs[1]
+            env[lhs[1]] = new
+            return new
         if lhs[0] != "member":
             self.refuse(f"assignment to {lhs}")
         base = self.ev(lhs[2], env, lines)
         f = lhs[3]
         val = self.ev(rhs, env, lines)
+        if base.kind == "lnode":
+            ok = {"Slot": ("receiver", "object", "slot", "state"), "Signal": ("signal", "slot")}[base.ty]
+            if f not in ok:
+                self.refuse(f"store into {base.ty}::{f}")
+            if f == "state":
+                if not (val.kind == "val" and val.ty == "state"):
+                    self.refuse("slot state assigned from a non-state")
+                base.fields[f] = val.term
+            else:
+                base.fields[f] = self.nat(val)
+            return val
         if base.kind == "sit":
             self.mutate("slistnode")
             if f == "state":
@@ -964,6 +1023,8 @@ class Tr:
             neg = k == "ne"
             for x, y in ((a, b), (b, a)):
                 if x.kind in ("sigit", "lit") and y.kind == "end":
+                    if getattr(x, "varname", None) in getattr(self, "reassigned", set()):
+                        self.refuse("an iterator that was re-assigned is compared with end()")
                     if y.of != x.container():
                         self.refuse("iterator compared with the end of another container")
                     return V("val", term=(x.present if neg else f"(!{x.present})"), ty="bool")
@@ -1112,9 +1173,31 @@ class Tr:
                 return V("lit", l=b.l, e=a.term, present="true")
         if f == "append" and len(args) == 1:
             t = self.ev(args[0], env, lines)
+            kk = self.fresh("k")
+            if t.kind == "lnode":
+                # a copy of the local node: append a node and store the fields the local has
+                if b.kind == "slist" and t.ty == "Slot":
+                    if set(t.fields) != {"receiver", "object", "slot", "state"}:
+                        self.refuse("a Slot is appended before all of its fields are assigned")
+                    self.mutate("slist")
+                    lines.append(f"let h := H.slotAppend h {b.e} {b.g}")
+                    lines.append(f"let {kk} := H.slotLast h {b.e} {b.g}")
+                    lines.append(f"let h := H.modSlot h {b.e} {b.g} {kk} (fun x => {{ x with state := {t.fields['state']} }})")
+                    for fl in ("receiver", "object", "slot"):
+                        lines.append(f"let h := H.modSlot h {b.e} {b.g} {kk} (fun x => {{ x with {fl} := {t.fields[fl]} }})")
+                    return V("sit", e=b.e, g=b.g, k=kk)
+                if b.kind == "llist" and t.ty == "Signal":
+                    if set(t.fields) != {"signal", "slot"}:
+                        self.refuse("a Signal is appended before all of its fields are assigned")
+                    self.mutate("llist")
+                    lines.append(f"let h := H.lAppend h {b.l} {b.e}")
+                    lines.append(f"let {kk} := H.lLast h {b.l} {b.e}")
+                    lines.append(f"let h := H.modLSig h {b.l} {b.e} {kk} (fun p => ({t.fields['signal']}, p.2))")
+                    lines.append(f"let h := H.modLSig h {b.l} {b.e} {kk} (fun p => (p.1, {t.fields['slot']}))")
+                    return V("lsit", l=b.l, e=b.e, k=kk)
+                self.refuse("append of a local node to a list of another type")
             if t.kind != "temp" or t.args != 0:
                 self.refuse("append of something else than a value-initialised temporary")
-            kk = self.fresh("k")
             if b.kind == "slist" and t.ty == "Slot":
                 self.mutate("slist")
                 lines.append(f"let h := H.slotAppend h {b.e} {b.g}")
@@ -1316,8 +1399,19 @@ def translate_activation_ctor(src):
     params = params_of(ptext, what)
     if [k for _, k in params] != ["E", "nat"]:
         raise Refuse(f"{what}: parameters")
-    if not re.fullmatch(r":\s*invalidated\s*\(\s*false\s*\)", inits):
-        raise Refuse(f"{what}: member initialisers `{inits}` (expected `: invalidated(false)`)")
+    init_lines = []
+    seen = set()
+    for m_ in re.finditer(r"(\w+)\s*\(\s*(\w+)\s*\)\s*(,|$)", inits.lstrip(":").strip()):
+        fld, val = m_.group(1), m_.group(2)
+        seen.add(fld)
+        if (fld, val) == ("invalidated", "false"):
+            continue
+        if (fld, val) in (("next", "0"), ("data", "0")):
+            init_lines.append(f"  let a := {{ a with {fld} := none }}\n")
+        else:
+            raise Refuse(f"{what}: member initialiser `{fld}({val})`")
+    if "invalidated" not in seen or re.sub(r"(\w+)\s*\(\s*(\w+)\s*\)\s*(,|$)", "", inits.lstrip(":").strip()).strip():
+        raise Refuse(f"{what}: member initialisers `{inits}` (expected `invalidated(false)` and optionally `next(0)`, `data(0)`)")
     env = {n: value_of("v_" + n, k) for n, k in params}
     env["this"] = V("val", term="(some this)", ty="act")
     tr = TrCtor(what, {})
@@ -1326,7 +1420,7 @@ def translate_activation_ctor(src):
     text = tr.tr(stmts, None, env, "  ")
     args = "".join(f" (v_{n} : Nat)" for n, _ in params)
     return (f"def ctorActivation (h : State) (this : Nat){args} : State × H.Act :=\n"
-            f"  let a : H.Act := {{ invalidated := false }}\n{text}\n")
+            f"  let a : H.Act := {{ invalidated := false }}\n{''.join(init_lines)}{text}\n")
 
 
 # activation pointers as values: `data.activation->invalidated = true`
